@@ -62,10 +62,12 @@ Step == /\ verdict = "run"
                 THEN /\ failures' = failures \cup {"missing"} /\ path' = Bump /\ UNCHANGED <<visited, verdict>>
                 ELSE IF OnPath(t)
                 THEN /\ verdict' = "cyclic" /\ failures' = failures \cup {"cyclic"} /\ UNCHANGED <<path, visited>>
-                ELSE IF t \in visited
-                THEN /\ path' = Bump /\ UNCHANGED <<visited, failures, verdict>>          \* shared sub-graph: not expanded again
+                \* entering a manifest: the depth guard comes first, then the visited map (the order matters: a manifest
+                \* that was recorded through a short path is still refused when it is met again at the bottom of an over-deep one)
                 ELSE IF Len(path) >= DepthLimit
                 THEN /\ verdict' = "deep" /\ failures' = failures \cup {"deep"} /\ UNCHANGED <<path, visited>>
+                ELSE IF t \in visited
+                THEN /\ path' = Bump /\ UNCHANGED <<visited, failures, verdict>>          \* shared sub-graph: not expanded again
                 ELSE /\ path' = Append(Bump, [n |-> t, k |-> 1]) /\ visited' = visited \cup {t} /\ UNCHANGED <<failures, verdict>>
         /\ UNCHANGED edge
 Done == verdict # "run" /\ UNCHANGED vars
@@ -87,6 +89,9 @@ Longest(i, seen) == LET nx == (Succ(i) \ {0}) \ seen IN IF nx = {} THEN 1 ELSE 1
 IsChain == \A i \in Reachable \ {0} : Cardinality(Succ(i)) <= 1
 TooDeep == ~Cyclic /\ IsChain /\ Longest(N, {N}) > DepthLimit
 PathBounded == Len(path) <= DepthLimit
+\* the walk never follows a reference (to a manifest that is in the store and not on the path) from a full path
+DeepEntryRejected == (verdict = "run" /\ Len(path) >= DepthLimit /\ Top.k <= Len(edge[Top.n]))
+                        => LET t == edge[Top.n][Top.k] IN t = 0 \/ OnPath(t) \/ ENABLED Step
 
 Terminates == steps <= N * (MaxOut + 2) + 1
 NeverValidIfBad == verdict = "ok" => ~Cyclic /\ ~Dangling /\ ~TooDeep
